@@ -174,11 +174,14 @@ func c02Grammar(c *Ctx, g *pegGrammar) {
 }
 
 // ---- P2
-func c02Builder(c *Ctx, g *pegGrammar) {
+func c02Builder(c *Ctx, g *pegGrammar) { pathTreeBuilder(c, g, "C02.P2") }
+
+// pathTreeBuilder: the function that turns the parser's nodes into path values (shared by C02.P2 and C16.X8).
+func pathTreeBuilder(c *Ctx, g *pegGrammar, rid string) {
 	r, p := c.R, c.P
 	pk := p.Pkg("internal/parser/path")
 	if pk == nil {
-		r.Unknown("C02.P2", "package", "", "internal/parser/path not found")
+		r.Unknown(rid, "package", "", "internal/parser/path not found")
 		return
 	}
 	info := pk.TypesInfo
@@ -243,48 +246,71 @@ func c02Builder(c *Ctx, g *pegGrammar) {
 				}
 			}
 			sort.Strings(missing)
-			r.Check(len(missing) == 0, "C02.P2", key+"#covers-node-types", p.Pos(ts.Pos()), fmt.Sprintf("the builder handles all %d node types the grammar constructs", len(constructed)), "the builder has no case for "+strings.Join(missing, ", ")+": such paths hit the default (panic)")
-			// per case: what is returned, loops unconditional, Inverse copied
-			for tname, cc := range cases {
-				var retType string
-				ast.Inspect(cc, func(n ast.Node) bool {
-					if ret, ok := n.(*ast.ReturnStmt); ok && len(ret.Results) == 1 {
-						if cl, ok := ast.Unparen(ret.Results[0]).(*ast.CompositeLit); ok {
-							if tv, ok := info.Types[cl]; ok {
-								retType = typeName(tv.Type)
-								if inv := compositeField(cl, "Inverse"); inv != nil {
-									sel, ok := ast.Unparen(inv).(*ast.SelectorExpr)
-									r.Check(ok && sel.Sel.Name == "Inverse", "C02.P2", key+"#inverse-copied", p.Pos(inv.Pos()), "Inverse is copied from the parsed node", "the Inverse flag of the built property is not the parsed node's Inverse: "+types.ExprString(inv))
+			r.Check(len(missing) == 0, rid, key+"#covers-node-types", p.Pos(ts.Pos()), fmt.Sprintf("the builder handles all %d node types the grammar constructs", len(constructed)), "the builder has no case for "+strings.Join(missing, ", ")+": such paths hit the default (panic)")
+			// per case, decided on the value the builder returns (E-sym: helpers interpreted, loops summarised)
+			type caseRet struct {
+				val *Sym
+				pos token.Pos
+			}
+			rets := map[string][]caseRet{}
+			self := info.Defs[fd.Name]
+			proto := &symWalker{Inline: func(fn *types.Func) bool {
+				if fn.Pkg() != pk.Types {
+					return false
+				}
+				if d, dpk := p.findDecl(fn); d != nil {
+					return !strings.HasSuffix(dpk.Fset.Position(d.Pos()).Filename, "peg.go")
+				}
+				return false
+			}}
+			proto.OnReturn = func(w *symWalker, ret *ast.ReturnStmt, results []*Sym) {
+				if w.depth != 0 || len(results) != 1 {
+					return
+				}
+				for _, cnd := range w.Conds() {
+					if cnd.Cond.K == symCall && cnd.Cond.Fn == "typeis" && !cnd.Neg {
+						for _, nm := range strings.Split(cnd.Cond.Name, "|") {
+							rets[nm] = append(rets[nm], caseRet{results[0], ret.Pos()})
+						}
+					}
+				}
+			}
+			p.SymWalk(pk, fd, proto, nil)
+			listField := map[string]string{}
+			for tname := range cases {
+				if len(rets[tname]) == 0 {
+					continue // a case that panics or delegates
+				}
+				for _, cr := range rets[tname] {
+					v := cr.val
+					if v.K != symStruct {
+						r.Unknown(rid, key+"#"+tname+"-result", p.Pos(cr.pos), "the builder's result for "+tname+" is "+v.String()+", not a path node literal")
+						continue
+					}
+					if inv, ok := v.FieldDeep("Inverse"); ok {
+						r.Check(inv.K == symField && inv.Name == "Inverse", rid, key+"#inverse-copied", p.Pos(cr.pos), "Inverse is copied from the parsed node", "the Inverse flag of the built property is not the parsed node's Inverse: "+inv.String())
+					}
+					for _, fname := range []string{"And", "Or"} {
+						lst, ok := v.FieldDeep(fname)
+						if !ok {
+							continue
+						}
+						listField[tname] = fname
+						okList := lst.K == symList && len(lst.Parts) == 1 && lst.Parts[0].K == symRepeat && len(lst.Parts[0].Parts) == 1
+						if okList {
+							rep := lst.Parts[0]
+							el := rep.Parts[0]
+							// the parsed body of the node, each element built by the builder itself
+							okList = rep.X.K == symField && el.K == symCall && len(el.Parts) >= 1 && el.Parts[len(el.Parts)-1].K == symElem && el.Parts[len(el.Parts)-1].X.String() == rep.X.String()
+							if okList {
+								if fo, isFn := self.(*types.Func); isFn && el.Fn != funcFullName(fo) {
+									okList = false
 								}
 							}
 						}
+						r.Check(okList, rid, key+"#"+tname+"-keeps-every-element", p.Pos(cr.pos), "every element of the parsed body is built and kept, in order", "the "+fname+" list built for "+tname+" is "+lst.String()+", not [build(element) for every element of the parsed body]: alternatives or steps of the path are lost, filtered or reordered")
 					}
-					return true
-				})
-				// loops over the body
-				ast.Inspect(cc, func(n ast.Node) bool {
-					rs, ok := n.(*ast.RangeStmt)
-					if !ok {
-						return true
-					}
-					uncond := true
-					appends := 0
-					for _, st := range rs.Body.List {
-						switch x := st.(type) {
-						case *ast.AssignStmt:
-							if call, ok := ast.Unparen(x.Rhs[0]).(*ast.CallExpr); ok {
-								if id, ok := call.Fun.(*ast.Ident); ok && id.Name == "append" {
-									appends++
-								}
-							}
-						case *ast.IfStmt, *ast.SwitchStmt, *ast.BranchStmt:
-							uncond = false
-						}
-					}
-					r.Check(uncond && appends == 1, "C02.P2", key+"#"+tname+"-keeps-every-element", p.Pos(rs.Pos()), "every element of the parsed body is built and appended, in order", "the loop over the parsed body of "+tname+" skips, filters or reorders elements: alternatives or steps of the path are lost")
-					return true
-				})
-				_ = retType
+				}
 			}
 			// sequence -> And path, alternative -> Or path
 			if g != nil {
@@ -293,25 +319,7 @@ func c02Builder(c *Ctx, g *pegGrammar) {
 					seqT := g.constructedTypes(g.actionDecl(actionOf(seqRule)))
 					altT := g.constructedTypes(g.actionDecl(actionOf(altRule)))
 					if len(seqT) == 1 && len(altT) == 1 && cases[seqT[0]] != nil && cases[altT[0]] != nil {
-						fieldOf := func(cc *ast.CaseClause) string {
-							out := ""
-							ast.Inspect(cc, func(n ast.Node) bool {
-								if ret, ok := n.(*ast.ReturnStmt); ok && len(ret.Results) == 1 {
-									if cl, ok := ast.Unparen(ret.Results[0]).(*ast.CompositeLit); ok {
-										for _, el := range cl.Elts {
-											if kv, ok := el.(*ast.KeyValueExpr); ok {
-												if id, ok := kv.Key.(*ast.Ident); ok && (id.Name == "And" || id.Name == "Or") {
-													out = id.Name
-												}
-											}
-										}
-									}
-								}
-								return true
-							})
-							return out
-						}
-						r.Check(fieldOf(cases[seqT[0]]) == "And" && fieldOf(cases[altT[0]]) == "Or", "C02.P2", key+"#operator-mapping", p.Pos(ts.Pos()), "`/` nodes become sequence paths and `|` nodes alternative paths", fmt.Sprintf("`/` nodes are built as %q paths and `|` nodes as %q paths", fieldOf(cases[seqT[0]]), fieldOf(cases[altT[0]])))
+						r.Check(listField[seqT[0]] == "And" && listField[altT[0]] == "Or", rid, key+"#operator-mapping", p.Pos(ts.Pos()), "`/` nodes become sequence paths and `|` nodes alternative paths", fmt.Sprintf("`/` nodes are built as %q paths and `|` nodes as %q paths", listField[seqT[0]], listField[altT[0]]))
 					}
 				}
 			}
@@ -571,7 +579,7 @@ func c02Ownership(c *Ctx) {
 						}
 					}
 				}
-				if sliceFields > 0 && fresh == sliceFields && fd.Recv != nil {
+				if sliceFields > 0 && fresh == sliceFields {
 					cloners[fd.Name.Name] = true
 				}
 				return true
@@ -592,127 +600,239 @@ func c02Ownership(c *Ctx) {
 		}
 		return false
 	}
-	// functions appending to slice fields of a by-value struct parameter
+	// functions appending to slice fields of a struct parameter (by value, or through a pointer)
 	type site struct {
-		fd  *ast.FuncDecl
-		prm types.Object
-		idx int
+		fd    *ast.FuncDecl
+		prm   types.Object
+		idx   int
+		byPtr bool
 	}
 	var sites []site
-	decls := map[string]*ast.FuncDecl{}
+	decls := map[types.Object]*ast.FuncDecl{}
+	paramIndex := func(fd *ast.FuncDecl, obj types.Object) int {
+		idx := 0
+		for _, fld := range fd.Type.Params.List {
+			for _, name := range fld.Names {
+				if info.Defs[name] == obj {
+					return idx
+				}
+				idx++
+			}
+		}
+		return -1
+	}
+	structWithSlices := func(t types.Type) (bool, bool) {
+		byPtr := false
+		if pt, ok := t.Underlying().(*types.Pointer); ok {
+			t, byPtr = pt.Elem(), true
+		}
+		st, ok := t.Underlying().(*types.Struct)
+		if !ok {
+			return false, false
+		}
+		for i := 0; i < st.NumFields(); i++ {
+			if _, isSlice := st.Field(i).Type().Underlying().(*types.Slice); isSlice {
+				return true, byPtr
+			}
+		}
+		return false, false
+	}
+	appendsTo := func(body ast.Node, obj types.Object) bool {
+		found := false
+		ast.Inspect(body, func(n ast.Node) bool {
+			if call, ok := n.(*ast.CallExpr); ok {
+				if id, ok := call.Fun.(*ast.Ident); ok && id.Name == "append" && len(call.Args) >= 1 {
+					if sel, ok := ast.Unparen(call.Args[0]).(*ast.SelectorExpr); ok {
+						if base, ok := ast.Unparen(sel.X).(*ast.Ident); ok && info.Uses[base] == obj {
+							found = true
+						}
+					}
+				}
+			}
+			return true
+		})
+		return found
+	}
 	for _, f := range gen.Syntax {
 		for _, d := range f.Decls {
 			fd, ok := d.(*ast.FuncDecl)
 			if !ok || fd.Body == nil || fd.Type.Params == nil {
 				continue
 			}
-			decls[fd.Name.Name] = fd
+			decls[info.Defs[fd.Name]] = fd
 			idx := 0
 			for _, fld := range fd.Type.Params.List {
 				for _, name := range fld.Names {
 					obj := info.Defs[name]
-					if st, ok := obj.Type().Underlying().(*types.Struct); ok {
-						hasSlice := false
-						for i := 0; i < st.NumFields(); i++ {
-							if _, isSlice := st.Field(i).Type().Underlying().(*types.Slice); isSlice {
-								hasSlice = true
-							}
-						}
-						if hasSlice {
-							appends := false
-							ast.Inspect(fd.Body, func(n ast.Node) bool {
-								if call, ok := n.(*ast.CallExpr); ok {
-									if id, ok := call.Fun.(*ast.Ident); ok && id.Name == "append" && len(call.Args) >= 1 {
-										if sel, ok := ast.Unparen(call.Args[0]).(*ast.SelectorExpr); ok {
-											if base, ok := ast.Unparen(sel.X).(*ast.Ident); ok && info.Uses[base] == obj {
-												appends = true
-											}
-										}
-									}
-								}
-								return true
-							})
-							if appends {
-								sites = append(sites, site{fd, obj, idx})
-							}
-						}
+					if has, byPtr := structWithSlices(obj.Type()); has && appendsTo(fd.Body, obj) {
+						sites = append(sites, site{fd, obj, idx, byPtr})
 					}
 					idx++
 				}
 			}
 		}
 	}
-	for _, s := range sites {
-		key := relOf(gen) + "." + s.fd.Name.Name + "#" + s.prm.Name()
-		// (a) the parameter is re-assigned from a cloning call before the first append
-		reassigned := false
-		for _, st := range s.fd.Body.List {
-			if as, ok := st.(*ast.AssignStmt); ok && len(as.Lhs) == 1 && len(as.Rhs) == 1 {
-				if id, ok := as.Lhs[0].(*ast.Ident); ok && info.Uses[id] == s.prm && isCloneCall(as.Rhs[0]) {
-					reassigned = true
-				}
-			}
-			// stop at the first statement that appends
-			appendsHere := false
-			ast.Inspect(st, func(n ast.Node) bool {
-				if call, ok := n.(*ast.CallExpr); ok {
-					if id, ok := call.Fun.(*ast.Ident); ok && id.Name == "append" {
-						appendsHere = true
-					}
-				}
-				return true
-			})
-			if appendsHere {
+	// owned(f, p): the slices of parameter p are not shared with a value another alternative may extend
+	type ownKey struct {
+		fd  *ast.FuncDecl
+		prm types.Object
+	}
+	memo := map[ownKey]int{} // 1 in progress, 2 owned, 3 not owned
+	whyNot := map[ownKey]string{}
+	var owned func(fd *ast.FuncDecl, prm types.Object) bool
+	freshLocal := func(caller *ast.FuncDecl, obj types.Object, before token.Pos) bool {
+		for _, st := range caller.Body.List {
+			if st.Pos() > before {
 				break
 			}
+			if as, ok := st.(*ast.AssignStmt); ok && len(as.Lhs) == 1 && len(as.Rhs) == 1 {
+				if lid, ok := as.Lhs[0].(*ast.Ident); ok && (info.Uses[lid] == obj || info.Defs[lid] == obj) && isCloneCall(as.Rhs[0]) {
+					return true
+				}
+			}
 		}
-		if reassigned {
-			r.OK("C02.P4", key, p.Pos(s.fd.Pos()), "the parameter is replaced by a fresh copy before its slices are extended")
-			continue
+		return false
+	}
+	insideLoop := func(caller *ast.FuncDecl, pos token.Pos) bool {
+		in := false
+		ast.Inspect(caller.Body, func(n ast.Node) bool {
+			switch x := n.(type) {
+			case *ast.RangeStmt:
+				if x.Body.Pos() <= pos && pos <= x.Body.End() {
+					in = true
+				}
+			case *ast.ForStmt:
+				if x.Body.Pos() <= pos && pos <= x.Body.End() {
+					in = true
+				}
+			}
+			return true
+		})
+		return in
+	}
+	terminalUse := func(caller *ast.FuncDecl, obj types.Object, call *ast.CallExpr) bool {
+		// the call is part of a return statement, or the variable is not mentioned after the call
+		inReturn := false
+		ast.Inspect(caller.Body, func(n ast.Node) bool {
+			if ret, ok := n.(*ast.ReturnStmt); ok && ret.Pos() <= call.Pos() && call.End() <= ret.End() {
+				inReturn = true
+			}
+			return true
+		})
+		if inReturn {
+			return true
 		}
-		// (b) every call site passes a fresh copy: a direct clone call, or a variable that the caller re-assigned from one
-		allFresh, nSites := true, 0
-		var why string
-		for _, fd := range decls {
-			ast.Inspect(fd.Body, func(n ast.Node) bool {
-				call, ok := n.(*ast.CallExpr)
-				if !ok {
-					return true
-				}
-				if id, ok := call.Fun.(*ast.Ident); !ok || id.Name != s.fd.Name.Name || s.idx >= len(call.Args) {
-					return true
-				}
-				nSites++
-				arg := call.Args[s.idx]
-				if isCloneCall(arg) {
-					return true
-				}
-				if aid, ok := ast.Unparen(arg).(*ast.Ident); ok {
-					obj := info.Uses[aid]
-					fresh := false
-					for _, st := range fd.Body.List {
-						if st.Pos() > call.Pos() {
-							break
-						}
-						if as, ok := st.(*ast.AssignStmt); ok && len(as.Lhs) == 1 && len(as.Rhs) == 1 {
-							if lid, ok := as.Lhs[0].(*ast.Ident); ok && (info.Uses[lid] == obj || info.Defs[lid] == obj) && isCloneCall(as.Rhs[0]) {
-								fresh = true
-							}
-						}
-					}
-					if fresh {
+		later := false
+		ast.Inspect(caller.Body, func(n ast.Node) bool {
+			if id, ok := n.(*ast.Ident); ok && id.Pos() > call.End() && info.Uses[id] == obj {
+				later = true
+			}
+			return true
+		})
+		return !later
+	}
+	owned = func(fd *ast.FuncDecl, prm types.Object) bool {
+		k := ownKey{fd, prm}
+		switch memo[k] {
+		case 1, 3:
+			return false
+		case 2:
+			return true
+		}
+		memo[k] = 1
+		res := func() bool {
+			// (a) the parameter is re-assigned from a cloning call before the first append
+			for _, st := range fd.Body.List {
+				if as, ok := st.(*ast.AssignStmt); ok && len(as.Lhs) == 1 && len(as.Rhs) == 1 {
+					if id, ok := as.Lhs[0].(*ast.Ident); ok && info.Uses[id] == prm && isCloneCall(as.Rhs[0]) {
 						return true
 					}
 				}
-				allFresh = false
-				why = fmt.Sprintf("%s passes %s, which is not a fresh copy", fd.Name.Name, types.ExprString(arg))
-				return true
-			})
+				appendsHere := false
+				ast.Inspect(st, func(n ast.Node) bool {
+					if call, ok := n.(*ast.CallExpr); ok {
+						if id, ok := call.Fun.(*ast.Ident); ok && id.Name == "append" {
+							appendsHere = true
+						}
+					}
+					return true
+				})
+				if appendsHere {
+					break
+				}
+			}
+			// (b) every call site passes an owned value
+			idx := paramIndex(fd, prm)
+			self := info.Defs[fd.Name]
+			nSites := 0
+			okAll := true
+			for _, caller := range decls {
+				ast.Inspect(caller.Body, func(n ast.Node) bool {
+					call, ok := n.(*ast.CallExpr)
+					if !ok || calleeOf(info, call) != self || idx < 0 || idx >= len(call.Args) {
+						return true
+					}
+					nSites++
+					arg := ast.Unparen(call.Args[idx])
+					if u, ok := arg.(*ast.UnaryExpr); ok && u.Op == token.AND {
+						arg = ast.Unparen(u.X) // &x: the callee extends x itself
+						if aid, ok := arg.(*ast.Ident); ok {
+							obj := info.Uses[aid]
+							if freshLocal(caller, obj, call.Pos()) {
+								return true
+							}
+							if paramIndex(caller, obj) >= 0 && owned(caller, obj) {
+								return true
+							}
+						}
+						okAll = false
+						whyNot[k] = fmt.Sprintf("%s passes %s, which is not a fresh copy", caller.Name.Name, types.ExprString(call.Args[idx]))
+						return true
+					}
+					if isCloneCall(arg) {
+						return true
+					}
+					if aid, ok := arg.(*ast.Ident); ok {
+						obj := info.Uses[aid]
+						if freshLocal(caller, obj, call.Pos()) {
+							return true
+						}
+						if paramIndex(caller, obj) >= 0 && owned(caller, obj) {
+							// handed over: not in a loop (the same value would be handed to several callees), and not used afterwards
+							if !insideLoop(caller, call.Pos()) && terminalUse(caller, obj, call) {
+								return true
+							}
+							okAll = false
+							whyNot[k] = fmt.Sprintf("%s hands its own copy %s over inside a loop or keeps using it afterwards", caller.Name.Name, aid.Name)
+							return true
+						}
+					}
+					okAll = false
+					whyNot[k] = fmt.Sprintf("%s passes %s, which is not a fresh copy", caller.Name.Name, types.ExprString(call.Args[idx]))
+					return true
+				})
+			}
+			if nSites == 0 {
+				whyNot[k] = "no call site found"
+				return false
+			}
+			return okAll
+		}()
+		if res {
+			memo[k] = 2
+		} else {
+			memo[k] = 3
 		}
-		r.Check(allFresh && nSites > 0, "C02.P4", key, p.Pos(s.fd.Pos()), fmt.Sprintf("all %d call sites pass a fresh copy", nSites), "the slices of the by-value parameter "+s.prm.Name()+" are extended with append although the caller's copy shares their backing arrays ("+why+"): when the same traversal state is handed to several alternatives, the second alternative overwrites the step the first one appended")
+		return res
+	}
+	for _, s := range sites {
+		key := relOf(gen) + "." + s.fd.Name.Name + "#" + s.prm.Name()
+		k := ownKey{s.fd, s.prm}
+		ok := owned(s.fd, s.prm)
+		r.Check(ok, "C02.P4", key, p.Pos(s.fd.Pos()), "the parameter's slices are exclusively owned when they are extended (fresh copy on entry, or every caller passes one)", "the slices of the parameter "+s.prm.Name()+" are extended with append although the caller's copy shares their backing arrays ("+whyNot[k]+"): when the same traversal state is handed to several alternatives, the second alternative overwrites the step the first one appended")
 	}
 	if len(sites) == 0 {
-		r.Unknown("C02.P4", "sites", "", "no function appending to slice fields of a by-value struct parameter was found in the generator")
+		r.Unknown("C02.P4", "sites", "", "no function appending to slice fields of a struct parameter was found in the generator")
 	}
 }
 
